@@ -632,7 +632,7 @@ SUBCHECKS = [
     Sub('graph', gen, ev_single, chunk=6, floor=1000, envs=4),
     Sub('reject', gen_reject, ev_reject_single, chunk=1, floor=100, envs=2),
     Sub('vectors', gen_vec, ev_vec, chunk=1, floor=20),
-    Sub('threads', _tg, _te, chunk=1, floor=3, poison=False, fresh=True, timeout=3600),
+    Sub('threads', _tg, _te, chunk=1, floor=3, poison=False, fresh=True, timeout=7200),
     Sub('callforms', *_cf.make('C08', 'angles'), chunk=1, floor=1, guard=True),
     Sub('interpreter', *_ip.make('C08', 'angles'), chunk=1, floor=5, poison=False),
 ]
